@@ -14,7 +14,7 @@ func init() {
 	register(&Property{
 		ID:        "C10",
 		Title:     "Workload traffic dispatch is exact and fails closed",
-		Technique: "static analysis: builder-chain facts of generictables.Rule literals, argument-tuple resolution across call sites, value provenance and dominance (go/ssa over felix/rules), return-reachability in the nftables map/set replace operations (felix/nftables)",
+		Technique: "static analysis: builder-chain facts of generictables.Rule literals, argument-tuple resolution across call sites, value provenance and dominance (go/ssa over felix/rules), return-reachability in the nftables map/set replace operations and per-iteration path search over the member-tracker sweeps of the view-resetting methods (felix/nftables), sibling/pairing checks of the endpoint manager's interface-name reverse index (felix/dataplane/linux; shared with C44)",
 		DesignRef: "DESIGN.md §3 C10",
 		Explanation: "Decides structural clauses of interface dispatch in felix/rules/dispatch.go. (endrules) every generictables.Chain built by buildSingleDispatchChainTree/VMAP " +
 			"(root and goto'd child) ends with the caller's end rules, and the dispatcher passes them through unchanged. (leaf) each per-interface rule matches and targets the same " +
@@ -25,9 +25,10 @@ func init() {
 			"(wildcardhep) builds with a host prefix get end rules that only goto the wildcard HEP's chain of the same prefix, only under defaultIfaceName != \"\". (vmap) nftables verdict-map " +
 			"dispatch: the from/to map names, matchers and chain prefixes agree between the root rule, DispatchMappings and the map programmed by the endpoint manager. (sorted) the " +
 			"adjacent-duplicate elimination runs on sorted names. (replace) the AddOrReplace* operations of felix/nftables (Maps.AddOrReplaceMap, through which the dispatch verdict maps are programmed, its tableLayer wrapper, " +
-			"and the sibling IPSets.AddOrReplaceIPSet) run the stale-member pass over the desired view before every return — also when the new member set is empty — and that pass deletes every desired member the set built from the members argument does not contain.",
+			"and the sibling IPSets.AddOrReplaceIPSet) run the stale-member pass over the desired view before every return — also when the new member set is empty — and that pass deletes every desired member the set built from the members argument does not contain. (mapview) a method of an nftables map/set plane (Maps, IPSets — derived from their field types) that resets the whole believed \"exists in the dataplane\" view of the metadata tracker (Maps.InvalidateMapsCache on a table recreate, the resync loaders) also, on every normally-returning path, visits every per-map member tracker and resets its Dataplane() side or drops the tracker, unless the map is back in the \"exists\" view — else the dispatch verdict map is re-created empty while its elements are believed programmed. " +
+			"(wlindex) the endpoint manager renders the dispatch from activeWlEndpoints, whose membership is gated by the reverse index activeWlIfaceNameToID: the index entry is stored with every store into the set, deleted (for every non-nil endpoint) with every delete from the set, and the interface-rename block of resolveWorkloadEndpoints retires the OLD name from the index exactly as the removal function does (the last two are C44's index/cleanup families restricted to the index maps).",
 		NotDecided: "Prefix-tree correctness over all name sets (that bins partition the names and wildcard matches are disjoint) is not proved; kernel matching semantics of 'prefix+'; " +
-			"that static chains jump to the dispatch chains only for workload-prefixed interfaces (see C40); determinism of rule order; that the nftables transaction built from the desired/dataplane delta is applied (C15); chain reference counting of map members.",
+			"that static chains jump to the dispatch chains only for workload-prefixed interfaces (see C40); determinism of rule order; that the nftables transaction built from the desired/dataplane delta is applied (C15); chain reference counting of map members; per-key removals from the \"exists\" view (FinishMapUpdates) and the contents the resync reads back; that the endpoint passed to the removal function is the one stored under the id it deletes (C44.prefer); the shadowing decisions themselves (C44).",
 		Assumptions: []string{
 			"go/types + go/ssa (x/tools v0.50.0) model of the current source, CGO_ENABLED=0 build",
 			"direction table of exported chain-name constants in rules_C10.go (from/to, prefix ↔ dispatch chain) transcribed from rule_defs.go",
@@ -82,6 +83,26 @@ func init() {
 				Old: "\t\tif canonMembers.Contains(k) {\n\t\t\tcanonMembers.Discard(k)\n\t\t} else {\n\t\t\tdesiredMembers.Delete(k)\n\t\t}\n", New: "\t\tif canonMembers.Contains(k) {\n\t\t\tcanonMembers.Discard(k)\n\t\t}\n", Expect: "C10.replace/IPSets.AddOrReplaceIPSet/stale-deleted"},
 			{Name: "table layer drops a replace with no members", File: "felix/nftables/table_layer.go",
 				Old: "\t// Call the underlying implementation.\n\tt.maps.AddOrReplaceMap(meta, members)\n", New: "\tif len(members) == 0 {\n\t\treturn\n\t}\n\tt.maps.AddOrReplaceMap(meta, members)\n", Expect: "C10.replace/tableLayer.AddOrReplaceMap/every-path"},
+			{Name: "seeded C10-4 shape: cache invalidation keeps the member view of maps that are still wanted", File: "felix/nftables/maps.go",
+				Old:    "\tfor name, members := range s.mapNameToMembers {\n\t\tmembers.Dataplane().DeleteAll()\n\t\ts.updateDirtiness(name)\n",
+				New:    "\tfor name, members := range s.mapNameToMembers {\n\t\tif _, ok := s.mapNameToAllMetadata[name]; ok {\n\t\t\ts.mapsWithDirtyMembers.Add(name)\n\t\t\tcontinue\n\t\t}\n\t\tmembers.Dataplane().DeleteAll()\n\t\ts.updateDirtiness(name)\n",
+				Expect: "C10.mapview/Maps.InvalidateMapsCache"},
+			{Name: "cache invalidation returns early when maps are already dirty", File: "felix/nftables/maps.go",
+				Old:    "\ts.mapNameToProgrammedMetadata.Dataplane().DeleteAll()\n\tfor name, members := range s.mapNameToMembers {\n\t\tmembers.Dataplane().DeleteAll()\n",
+				New:    "\ts.mapNameToProgrammedMetadata.Dataplane().DeleteAll()\n\tif s.mapsWithDirtyMembers.Len() > 0 {\n\t\treturn\n\t}\n\tfor name, members := range s.mapNameToMembers {\n\t\tmembers.Dataplane().DeleteAll()\n",
+				Expect: "C10.mapview/Maps.InvalidateMapsCache"},
+			{Name: "map resync keeps the members of a wanted map that was not found in the dataplane", File: "felix/nftables/maps.go",
+				Old: "\t\tmembers.Dataplane().DeleteAll()\n\t}\n\n\treturn nil\n", New: "\t\t_ = members\n\t}\n\n\treturn nil\n", Expect: "C10.mapview/Maps.LoadDataplaneState"},
+			{Name: "set resync keeps the members of a wanted set that was not found in the dataplane", File: "felix/nftables/ipsets.go",
+				Old: "\t\tmembers.Dataplane().DeleteAll()\n\t}\n\n\treturn nil\n", New: "\t\t_ = members\n\t}\n\n\treturn nil\n", Expect: "C10.mapview/IPSets.tryResync"},
+			{Name: "seeded C10-3 shape: interface rename does not retire the old name from the reverse index", File: "felix/dataplane/linux/endpoint_mgr.go",
+				Old: "\t\t\t\t\tm.linkAddrsMgr.RemoveLinkLocalAddress(oldWorkload.Name)\n\t\t\t\t\tdelete(m.activeWlIfaceNameToID, oldWorkload.Name)\n",
+				New: "\t\t\t\t\tm.linkAddrsMgr.RemoveLinkLocalAddress(oldWorkload.Name)\n", Expect: "C10.wlindex/agree/delete(activeWlIfaceNameToID)"},
+			{Name: "endpoint removal leaves its interface name in the reverse index", File: "felix/dataplane/linux/endpoint_mgr.go",
+				Old: "\t\t\tm.linkAddrsMgr.RemoveLinkLocalAddress(oldWorkload.Name)\n\t\t\tdelete(m.activeWlIfaceNameToID, oldWorkload.Name)\n",
+				New: "\t\t\tm.linkAddrsMgr.RemoveLinkLocalAddress(oldWorkload.Name)\n", Expect: "C10.wlindex/unindex/"},
+			{Name: "active endpoint stored without its reverse-index entry", File: "felix/dataplane/linux/endpoint_mgr.go",
+				Old: "\t\t\t\tm.activeWlEndpoints[id] = workload\n\t\t\t\tm.activeWlIfaceNameToID[workload.Name] = id\n", New: "\t\t\t\tm.activeWlEndpoints[id] = workload\n", Expect: "C10.wlindex/index/"},
 			{Name: "names binned without sorting", File: "felix/rules/dispatch.go",
 				Old: "\t// Otherwise we would reprogram the dispatch chain when there is no real change.\n\tsort.Strings(names)\n", New: "", Expect: "C10.sorted/DefaultRuleRenderer.sortAndDivideEndpointNamesToPrefixTree"},
 		},
@@ -163,7 +184,9 @@ func runC10(c *Ctx) {
 		}
 	}
 	if c.Overlay != nil && nft {
-		c10Replace(c, c.Load(c10NftPkg))
+		pn := c.Load(c10NftPkg)
+		c10Replace(c, pn)
+		c10MapView(c, pn)
 		return
 	}
 	roots := []string{c10RulesPkg}
@@ -176,6 +199,10 @@ func runC10(c *Ctx) {
 	p := c.Load(roots...)
 	if nft {
 		c10Replace(c, p)
+		c10MapView(c, p)
+	}
+	if dpPkg != "" {
+		c10WlIndex(c, p)
 	}
 	m := &c10Model{c: c, p: p, lits: map[*ssa.Function][]*c10Lit{}}
 	for _, f := range p.AllFuncs() {
